@@ -6,6 +6,7 @@ time.moved, time.order, snapshot.
 """
 from __future__ import annotations
 
+import copy
 import io
 import logging
 import math
@@ -527,14 +528,41 @@ def fam_params():
   aas = [None, [0.1, 0.2, 0.8, 0.7], [0, 0, 1, 1]]
   dars = [None, F(16, 9), F(4, 3)]
   langs = ["", "en", "fr-CA"]
-  prod = Product([cells, pxs, aas, dars, langs, [0, 1], CONFIGS_SMALL[:2]])
+  # where the only pixel length of the document sits (the writer scans the document for one to decide whether tts:extent is
+  # written on tt): nowhere; each component of every length-valued region property on its own; a p property; an animation
+  # step; an initial value
+  pct = L(10, "%")
+  carriers = [
+    None,
+    ("region", "Extent", ["ext", L(240, "px"), L(320, "px")]),
+    ("region", "Extent", ["ext", L(50, "%"), L(320, "px")]), ("region", "Extent", ["ext", L(240, "px"), L(50, "%")]),
+    ("region", "Origin", ["org", L(24, "px"), pct]), ("region", "Origin", ["org", pct, L(24, "px")]),
+    ("region", "Position", ["pos", L(24, "px"), pct, "left", "top"]), ("region", "Position", ["pos", pct, L(24, "px"), "left", "top"]),
+    ("region", "Position", ["pos", pct, L(24, "px"), "right", "bottom"]),
+    ("region", "Padding", ["pad", L(1, "%"), L(1, "%"), L(1, "%"), L(5, "px")]), ("region", "Padding", ["pad", L(5, "px"), L(1, "%"), L(1, "%"), L(1, "%")]),
+    ("p", "LineHeight", L(60, "px")), ("p", "FontSize", L(40, "px")), ("span", "TextOutline", ["to", L(3, "px"), None]),
+    ("anim", "Position", ["pos", pct, L(24, "px"), "left", "top"]), ("init", "Position", ["pos", pct, L(24, "px"), "left", "top"]),
+    ("init", "Origin", ["org", pct, L(24, "px")]),
+  ]
+  prod = Product([cells, pxs, aas, dars, langs, carriers, CONFIGS_SMALL[:2]])
 
   def dec(i):
     cell, px, aa, dar, lang, usepx, c = prod.decode(i)
     spec = docgen.chain_doc({}, True)
     spec.update({"cell": cell, "px": px, "aa": aa, "dar": dar, "lang": lang})
     if usepx:
-      spec["regions"][0]["st"] = {"Extent": ["ext", L(240, "px"), L(320, "px")]}
+      where, prop, val = copy.deepcopy(usepx)
+      pnode = spec["body"]["c"][0]["c"][0]
+      if where == "region":
+        spec["regions"][0]["st"] = {prop: val}
+      elif where == "p":
+        pnode["st"] = {prop: val}
+      elif where == "span":
+        pnode["c"][0]["st"] = {prop: val}
+      elif where == "anim":
+        spec["regions"][0]["an"] = [[prop, F(1), F(2), val]]
+      else:
+        spec["init"] = [[prop, val]]
     # elements carry the resolved language, as in a document produced by a reader
     for r in spec["regions"]:
       r["lang"] = lang
